@@ -6,6 +6,7 @@
 // which the reference is discontinuous under those perturbations (branch cuts) or not finite (poles,
 // overflow) are excluded by that rule, as the property excludes them.
 #include "../engine/grid.hpp"
+#include <limits>
 #include <quadmath.h>
 #include <cmath>
 #include <cfloat>
@@ -281,6 +282,28 @@ static void misc_all()
 // ---- binary operations on a coarser lattice of operand pairs
 static void binary_all()
 {
+    // division by a subnormal real scalar whose reciprocal overflows: the quotient of two tiny numbers is ordinary
+    if (R.shard.idx == 0)
+    {
+        const a_real d = std::numeric_limits<a_real>::denorm_min();
+        for (a_real sc : {(a_real)(d * 4), (a_real)(-d * 4), (a_real)(d * 1024)})
+        {
+            for (int k1 = -3; k1 <= 3; ++k1)
+            {
+                for (int k2 = -3; k2 <= 3; ++k2)
+                {
+                    a_complex x = {(a_real)(sc * k1 * 3), (a_real)(sc * k2 * 5)}, w = STALE, wi = x;
+                    a_complex_div_real(&w, x, sc);
+                    a_complex_div_real_(&wi, sc);
+                    ++n_eval; ++n_checked;
+                    if (!(w.real == (a_real)(k1 * 3) && w.imag == (a_real)(k2 * 5)) || !same_c(w, wi))
+                    {
+                        R.viol("complex|div_real|subnormal-divisor", "a_complex_div_real((" + num((double)x.real) + ", " + num((double)x.imag) + "), " + num((double)sc) + ") = (" + num((double)w.real) + ", " + num((double)w.imag) + ") but the quotient is exactly (" + std::to_string(k1 * 3) + ", " + std::to_string(k2 * 5) + ")", "{\"fn\":\"div_real\"}");
+                    }
+                }
+            }
+        }
+    }
     std::vector<a_real> ax;
     for (size_t i = 0; i < axis.size(); i += 5) { ax.push_back(axis[i]); }
     for (double d : {0.0, 1.0, -1.0, 0.5, 3.0}) { ax.push_back((a_real)d); }
